@@ -946,6 +946,16 @@ func genC07(tier string, seed uint64, emit func(string)) {
 	for _, h := range hostile {
 		emit(serveLine("-", [][]byte{append([]byte(h), reqS("PING")...)}, "r s:4f4b", "", ""))
 	}
+	// megabytes of bytes where the next request is expected (blank lines, separators, padding), at the start of a
+	// connection and behind a complete request: the other connections are served, the process stays
+	floodMiB := 16
+	if tier == "thorough" {
+		floodMiB = 64
+	}
+	for _, pat := range []string{"\r\n", "\n", "\r", " ", "\x00", "\r\n\r\n \t", "*0\r\n", "*-1\r\n", "$-1\r\n"} {
+		emit(fmt.Sprintf("flood07 - %s %d", hx([]byte(pat)), floodMiB))
+		emit(fmt.Sprintf("flood07 %s %s %d", hx(reqS("PING")), hx([]byte(pat)), floodMiB))
+	}
 	// a request that crashes inside the framework (a handler answering nil, nil to a composed command) ends its own
 	// connection only: connections opened before and after it are served
 	for _, cmd := range []string{"INCR", "APPEND", "ZREVRANGE", "STRLEN"} {
